@@ -17,7 +17,8 @@ Invalid == {[e |-> EQ(3, 1), gb |-> <<>>], [e |-> EQ(1, 1), gb |-> <<3>>],
 EQP(c, v, n) == [op |-> "eq", col |-> c, val |-> v, ph |-> n]
 Unresolved == {[e |-> EQP(1, 1, 3), gb |-> <<>>], [e |-> AND(<<EQP(1, 1, 1), EQ(2, 2)>>), gb |-> <<2>>], [e |-> AND(<<EQP(1, 1, 2), NOTe(H)>>), gb |-> <<>>],
                [e |-> OR(<<NOTe(AND(<<>>)), EQP(2, 1, 1)>>), gb |-> <<>>]}
-Odd == {[e |-> AND(<<>>), gb |-> <<>>], [e |-> OR(<<>>), gb |-> <<>>], [e |-> NOTe(AND(<<>>)), gb |-> <<>>], [e |-> AND(<<EQ(1, 1), OR(<<>>)>>), gb |-> <<1>>]}
+Odd == {[e |-> AND(<<EQ(1, 1), AND(<<>>)>>), gb |-> <<1>>], [e |-> OR(<<OR(<<>>), EQ(2, 2)>>), gb |-> <<>>], [e |-> NOTe(AND(<<AND(<<>>), EQ(1, 1)>>)), gb |-> <<>>],
+        [e |-> AND(<<>>), gb |-> <<>>], [e |-> OR(<<>>), gb |-> <<>>], [e |-> NOTe(AND(<<>>)), gb |-> <<>>], [e |-> AND(<<EQ(1, 1), OR(<<>>)>>), gb |-> <<1>>]}
 QSet == Valid \cup Invalid \cup Odd \cup Unresolved
 Ids == {0, 5}
 Batches == UNION {[1..k -> {[id |-> i, e |-> q.e, gb |-> q.gb] : i \in Ids, q \in QSet}] : k \in 0..MaxBatch}
